@@ -166,6 +166,8 @@ func vStoreContract() []byte { return vStoreContractV(0) }
 func vStoreContractV(pad int) []byte {
 	a := newAsm()
 	a.push1(32).op(0x35).op(0x3b).push1(8).op(0x55) // SSTORE(8, EXTCODESIZE(CALLDATALOAD(32)))
+	a.push1(1).op(0x30).op(0x31).op(0x01).op(0x50)           // BALANCE(ADDRESS)+1, dropped: arithmetic on a value read from the state
+	a.push1(3).op(0x33).op(0x31).op(0x02).op(0x50)           // BALANCE(CALLER)*3, dropped
 	a.push1(1).op(0x43).op(0x03).op(0x40).push1(9).op(0x55)  // SSTORE(9, BLOCKHASH(NUMBER-1)): the block's OWN ancestry, also on a side fork
 	a.push1(3).op(0x43).op(0x03).op(0x40).push1(10).op(0x55) // SSTORE(10, BLOCKHASH(NUMBER-3))
 	a.push1(0).op(0x35)                // x = CALLDATALOAD(0)
